@@ -145,6 +145,7 @@ def run_case(case, watchdog=60.0):
     mode = case.get("mode", "det")
     rec = projbuild.Recorder()
     rec.suffix = case.get("payload_suffix", "")
+    rec.abort_subclasses = bool(case.get("abort_subclasses"))
     tmp = tempfile.mkdtemp(prefix="lccverif_run_")
     out = {"mode": mode}
     names = {}
